@@ -755,3 +755,30 @@ def region(rnd, hazard):
 
 
 SCENARIOS["region"] = region
+
+
+def region_calls(rnd, hazard):
+    """The region scenario plus calls of a module subroutine that updates a
+    whole array passed by reference (a READWRITE access that is not a
+    Fortran read or write statement)."""
+    from vf.flite import decl
+    unit, _ = region(rnd, hazard)
+    body = unit["routines"][0]["body"]
+    for _ in range(rnd.randint(1, 2)):
+        arr = rnd.choice(["a", "b", "c"])
+        body.insert(rnd.randint(2, len(body)),
+                    ["call", "upd", [V(arr), V("n"), V("s1")]])
+    unit["routines"].append({
+        "kind": "subroutine", "name": "upd", "args": ["v", "m", "kk"],
+        "decls": [decl("m", "i", intent="in"),
+                  decl("v", "r", [[None, V("m")]], intent="inout"),
+                  decl("kk", "i", intent="inout"), decl("jj", "i")],
+        "body": [["do", "jj", I(2), V("m"), None,
+                  [["assign", A("v", V("jj")),
+                    B("+", A("v", V("jj")), A("v", B("-", V("jj"), I(1))))]]],
+                 ["assign", V("kk"), B("+", V("kk"), I(1))]],
+        "result": None})
+    return unit, None
+
+
+SCENARIOS["region_calls"] = region_calls
